@@ -6,6 +6,11 @@
 #include <concepts>
 #include <coroutine>
 
+#ifdef COCLS_VERIF
+//verification hooks (instrumented atomics, access markers); see /verif/rt
+#include <cocls_verif/hooks.h>
+#endif
+
 
 #ifdef __CDT_PARSER__
 //This part is seen by Eclipse CDT Parser only
